@@ -417,6 +417,14 @@ Theorem C06_certificate_checkers_sound : forall lns ns, internet_okb lns ns = tr
 Proof. exact checkers_sound. Qed.
 Print Assumptions C06_certificate_checkers_sound.
 
+(* tree_to is exactly "loop-free seen from d" (tree_from, which adds uniqueness of the parent port) together with
+   "warm towards d" (every router not attached to d routes d through its up-port to the parent port of its
+   up-network) *)
+Theorem C06_loop_free_warm_is_tree_to : forall lns ns d lv up par,
+  tree_from lns ns d lv up par -> warm_to ns d lv up par -> tree_to lns ns d lv up par.
+Proof. exact loop_free_warm_tree_to. Qed.
+Print Assumptions C06_loop_free_warm_is_tree_to.
+
 (* C06_reply_routable is FALSE of the code when the originator is an application on a router: router with ports
    (net 1, net 2), local adapter = net 2, broadcasts globally; the station on net 1 is shown the router's net-1
    address in local form; its reply to that address arrives on the non-local adapter and is handed to nobody. *)
